@@ -105,6 +105,7 @@ def run(ctx):
     open(os.path.join(ctx.wd, "Sim_SR.cfg"), "w").write(sim_cfg)
     behs, r = vlib.simulate_behaviours("SnapRef.tla", "Sim_SR.cfg", ctx.wd, 3000 if T else 500, 60, vlib.seed(), init_vars=("owns",))
     scripts = [to_script(lb, init, 2, rng.randrange(1 << 30)) for (lb, init) in behs]
+    vlib.require_ops(ctx, scripts, "SnapRef.tla simulated behaviours")
     ctx.add_sample({"kind": "TLC-simulated behaviour as gate schedule (M3)", "script": {k: scripts[0][k] for k in ("owner", "procs")}, "sched": scripts[0]["sched"][:30]})
     tr, info = run_scripts(ctx, scripts, "m3sim")
     validate(ctx, tr, info, "TLC-simulated schedules on the real snapshot handles")
